@@ -10,9 +10,31 @@ from __future__ import annotations
 import contextlib
 import os
 import random
+import shutil
 import subprocess
 import sys
+import tempfile
 import warnings
+
+_TMPBASE = {"dir": None}
+
+
+def mk_tmp(prefix):
+    """Scratch directory; inside ``run_tmpbase`` it lives under the run's base
+    directory, which is removed at the end of the run even when workers were
+    terminated in the middle of a case."""
+    return tempfile.mkdtemp(prefix=prefix, dir=_TMPBASE["dir"])
+
+
+@contextlib.contextmanager
+def run_tmpbase(prefix):
+    base = tempfile.mkdtemp(prefix=prefix)
+    _TMPBASE["dir"] = base
+    try:
+        yield base
+    finally:
+        _TMPBASE["dir"] = None
+        shutil.rmtree(base, ignore_errors=True)
 
 
 @contextlib.contextmanager
